@@ -20,6 +20,7 @@ Ops (see the harness for the generator):
 * `touch [affected_pos]`                  `apply_to_bitmap_accumulator(affected_pos)` with the output set unchanged
 * `reopen`                                accumulator replaced by `TxHashSet::bitmap_accumulator` (rebuild on open)
 * `scratch`                               property oracle: impl's incremental root vs the from-scratch root of the model's unspent set
+* `asbitmap`                              `as_bitmap()` of the accumulator held now, every set bit (after raw calls on small sets)
 * `probe`                                 (histories outside the chain invariant) does incremental = scratch? `same`/`differ`
 * `rawinit [idx] size`, `rawapply [inval] [idx] size`   direct API calls with arbitrary (unsorted, out-of-range) arguments
 * `chunk [bits]`                          128-byte serialisation of a chunk (the hashed leaf element)
@@ -48,10 +49,15 @@ def showRoot : RootRes Bytes → String
   | .ok h => toHex h
   | .err => "panic"
 
-/-- `root nleaves card sum` as printed by the harness -/
+/-- `root nleaves card sum wsum sqsum` as printed by the harness -/
 def showAcc (a : Acc Bytes) : String :=
   let bm := match asBitmap a with
-    | some l => s!"{l.length} {l.foldl (· + ·) 0}"
+    | some l =>
+      -- cardinality, sum, rank-weighted sum and sum of squares (mod 1000000007) of the set bits in
+      -- the order `as_bitmap` yields them: a fingerprint of the whole derived bitmap
+      let w := (l.foldl (fun (a : Nat × Nat) x => (a.1 + 1, (a.2 + (a.1 + 1) * x) % 1000000007)) (0, 0)).2
+      let q := l.foldl (fun a x => (a + x * x) % 1000000007) 0
+      s!"{l.length} {l.foldl (· + ·) 0} {w} {q}"
     | none => "panic"
   s!"{showRoot (Bitmap.root realHF a)} {nLeaves a.hashes.length} {bm}"
 
@@ -122,6 +128,12 @@ def handle (st : St) (args : List String) (impl : String) : St × Verdict :=
     (st, cmpSpec (match fromScratch realHF st.U st.n with
       | some a => showRoot (Bitmap.root realHF a)
       | none => "err") impl)
+  | ["asbitmap"] =>
+    -- the derived view in full: every set bit of `as_bitmap()` of the accumulator held now; the
+    -- value the property fixes is the unspent set itself when the state is a from-scratch state
+    (st, cmpModel (match asBitmap st.acc with
+      | some l => showNatList l
+      | none => "panic") impl)
   | ["probe"] =>
     let inc := showRoot (Bitmap.root realHF st.acc)
     let scr := match fromScratch realHF st.U st.n with
